@@ -17,6 +17,7 @@ ORACLE B (stochastic Lanczos quadrature: the node exists).  Reading functions/_i
     P is the operator returned by `op._preconditioner()` (identity when it returns None), densified in float64.
 """
 import math
+import re
 
 import torch
 from hypothesis import strategies as st
@@ -69,6 +70,7 @@ C_LOGDET = 64.0
 C_SOLVE = 256.0
 C_CG = 1024.0
 C_SLQ = 4096.0
+LARGE_KAPPA_MAX = 64.0
 CG_EPS = 1e-10  # linear_cg: eps of the "safe division" (alpha := 0 when p^T A p < eps, rhs normalised): the iteration stalls
 TRIDIAG_CUT = 1e-6  # linear_cg: tridiagonalisation stops once every off-diagonal entry is below this
 
@@ -161,7 +163,7 @@ def _recipe1(draw, tier, focus):
     if focus == "slq":
         # classes that reach the InvQuadLogdet function when n > max_cholesky_size: the generic ones, AddedDiag (with its
         # pivoted-Cholesky preconditioner), KroneckerAddedDiag's fall-back branch, and the delegating wrappers over them
-        kind = draw(st.sampled_from(["generic", "generic", "added_diag", "added_diag", "kpad", "wrapper", "cat"]))
+        kind = draw(st.sampled_from(["generic", "generic", "added_diag", "added_diag", "kpad", "wrapper", "cat"] + ["large", "large"]))
     elif focus == "closed":
         kind = draw(st.sampled_from(["override"] * 6 + ["kpad"]))
     else:
@@ -565,6 +567,21 @@ def _slq_expected(r, A, op, nodes, info):
     return _slq_leaf(op, A, nodes, info)
 
 
+KRON_SOLVE_NODES = ("Kronecker", "KroneckerAddedDiag", "KroneckerDiag", "KroneckerTri", "SumKronecker")
+_CG_RHS_RE = re.compile(r"Running CG on a torch\.Size\(\[([0-9, ]*)\]\) RHS")
+
+
+def _cg_inner(lines, n):
+    """True iff some logged CG call worked on a right-hand side with a row count other than the operator's size n."""
+    for ln in lines:
+        m = _CG_RHS_RE.search(ln)
+        if m:
+            dims = [int(x) for x in m.group(1).replace(" ", "").split(",") if x]
+            if len(dims) >= 2 and dims[-2] != n:
+                return True
+    return False
+
+
 def _placeholder_kind(t):
     if t is None:
         return "None"
@@ -767,6 +784,12 @@ def check(case):
             rel = C_CG * n * u * kap
             lmin_cg = min(lmin, info.get("lmin_leaf", lmin))
             stall = 4.0 * CG_EPS * info.get("p_max", 1.0) / (lmin_cg * min(1.0, info.get("mu_min", lmin_cg) if info.get("precond") else lmin_cg))
+            if _cg_inner(lines, n) or any(nd["op"] in KRON_SOLVE_NODES for nd in R.walk(r)):
+                # CG that ran on a FACTOR or a block (Kronecker-type solves are factor-wise; the logged right-hand side has
+                # fewer rows than the operator): the Galerkin identity above does not apply to the whole quadratic form, the
+                # stalled inner solve leaves a relative residual <= sqrt(stall) and b^T (x^ - x) = x^T (A x^ - b) is LINEAR in it
+                rel += math.sqrt(stall) * kappa_s
+                labels.append("iq:inner_cg")
         else:
             rel = C_SOLVE * n * u * kappa_s
         rel = rel * (8.0 if has_mul else 1.0) + jit
@@ -823,16 +846,33 @@ def check(case):
                 bound = C_SLQ * u * n * kM * math.sqrt(kP) * (1.0 + info["logmax"]) * info.get("amp", 1.0) + C_LOGDET * u * n * n * kP
                 # stalled CG step (see inv_quad above): the Jacobi matrix is cut where |r_k|_{P^-1}^2 < eps lmax(P)/lmin(A); the
                 # remainder of the Gauss rule for log is int_0^inf |e_k(t)|^2_{M+t} dt <= |r_k|^2 (1 + log(1 + kappa(M)))
-                bound += n * 4.0 * CG_EPS * info.get("p_max", 1.0) / info.get("lmin_leaf", lmin) * (1.0 + math.log1p(kM))
+                # Beyond ~10 steps the stall is not a clean cut: the step with p^T A p < eps enters the Jacobi matrix with
+                # 1/alpha := 1 and the recurrence goes on with alpha = 0, so rows of a perturbed recurrence stay coupled to
+                # the exact leading block, and the residual of the last exact step is not the smallest one (CG residual norms
+                # are not monotone).  Measured on the unchanged tree (28 000 cases, n = 12..20): for kappa(M) <= 64 the error
+                # stays below 0.03 of the clean-cut remainder bound; above, it grows past kappa(M) times that bound (heavy
+                # tail up to 6e-4 absolute), i.e. the identity is only as good as linear_cg's thresholds there: not compared.
+                stall = 4.0
+                large_illcond = n > 8 and kM > LARGE_KAPPA_MAX
+                bound += n * stall * CG_EPS * info.get("p_max", 1.0) / info.get("lmin_leaf", lmin) * (1.0 + math.log1p(kM))
                 ksize = _tridiag_size(lines)
                 info["tsize"] = ksize if ksize is not None else -1
                 near = info.get("cut", 0.0) > 0.0 or (ksize is not None and ksize < info.get("n_leaf", n))
                 if near:
                     labels.append("slq:near_breakdown")
-                    bound += n * max(TRIDIAG_CUT, info.get("cut", 0.0)) / info["mu_min"]
+                    cutv = max(TRIDIAG_CUT, info.get("cut", 0.0))
+                    if n > 8 and not info.get("cut", 0.0) > 0.0:
+                        # (large sizes, no small off-diagonal in the reference run: the library's matrix is smaller than n only
+                        #  through a coupling entry below its own 1e-6 threshold, and dropping a coupling entry beta changes
+                        #  e1^T log(T) e1 only in SECOND order - the eigenvectors of the decoupled matrix live in one block)
+                        bound += n * 16.0 * (cutv / info["mu_min"]) ** 2
+                    else:
+                        bound += n * cutv / info["mu_min"]
                 info["slq_bound"] = bound
                 if bound > 0.05 * (1.0 + float(ld_ref.abs().max())):
                     vacuous.append("slq")
+                elif large_illcond:
+                    vacuous.append("slq_large_illcond")
                 else:
                     ratio, i = tol.worst_excess(got, expected_slq, torch.full_like(expected_slq, bound))
                     info["slq_ratio"] = ratio
@@ -841,7 +881,8 @@ def check(case):
                         fail(
                             "value",
                             "SLQ identity: returned %r, log|P| + (n/m) sum u^T log(M) u = %r for the probes on the node (|diff|/bound = %.3g, bound %.2e; dense logdet %r; m=%s precond=%s)"
-                            % (got.reshape(-1)[i].item(), expected_slq.reshape(-1)[i].item(), ratio, bound, ld_ref.reshape(-1)[i].item(), info.get("m"), info.get("precond")),
+                            % (got.reshape(-1)[i].item(), expected_slq.reshape(-1)[i].item(), ratio, bound, ld_ref.reshape(-1)[i].item(), info.get("m"), info.get("precond"))
+                            + " [n=%d tsize=%s amp=%.3g cut=%.3g kM=%.3g kP=%.3g]" % (n, info.get("tsize"), info.get("amp", 1.0), info.get("cut", 0.0), kM, kP),
                         )
         else:
             # backward error of a factorization: A + E, |E| <= c n u |A|  =>  |d logdet| = |tr(A^{-1}E)| <= c n^2 u kappa;
